@@ -134,8 +134,9 @@ CLAIMED = {
                 "Static.v (per-call answers of Linux on a static tree and of a minimal procfs) and OpathM.v/ProcfsM.v (the library), "
                 "all tied by differential runs / trace replay, not proved equal to the C/Rust code. The theorem's premises beyond "
                 "well-formedness are properties of the tree only (names, link bodies, one path per object, paths fit the buffer). "
-                "Proved for a procfs handle that resolves with openat2; for the emulated procfs resolver the premise 'as_unsafe_path "
-                "returns root path + path' (C01_resolve_refines_walk) stays, exercised by T1/T2. No DAC/MAC permissions modelled. "
+                "Proved both with openat2 available (procfs handle resolves with it) and without (emulated procfs resolver walking "
+                "thread-self/fd/N component by component); the procfs part of the static kernel is tied to real traces only in the "
+                "first configuration (fixed pid/tid names in the model). No DAC/MAC permissions modelled. "
                 "Known finding F-H (41..127 links).",
         "technique": "Coq proof (refinement of the syscall-level program, procfs checks included, to a pure walk + simulation between two "
                      "component-queue machines over an abstract FS) + differentials against the kernel's raw openat2 and recorded syscall answers",
